@@ -1349,6 +1349,10 @@ class ThreadsafeForwardingResult(TestResult):
 
     def startTestRun(self):
         super().startTestRun()
+        # The run-level tags are reset with the run; drop the buffered copies
+        # too, or they would be replayed onto the tests of the new run.
+        self._global_tags = set(), set()
+        self._test_tags = set(), set()
         self.semaphore.acquire()
         try:
             self.result.startTestRun()
